@@ -139,6 +139,23 @@ func (w *World) garbagePayload(a map[string]string) []byte {
 		}
 		b, _ := json.Marshal(m)
 		return b
+	case "wronghash":
+		// a real message whose first head claims another address: every signed field is intact (the
+		// signature does not cover the hash), so it passes the access and signature checks and fails the
+		// hash check: Sync refuses the message as a whole with an error
+		var m map[string]interface{}
+		if json.Unmarshal(real, &m) != nil {
+			return real
+		}
+		hs, _ := m["heads"].([]interface{})
+		if len(hs) == 0 {
+			return wrap(`[{}]`)
+		}
+		if h, ok := hs[0].(map[string]interface{}); ok {
+			h["hash"] = map[string]interface{}{"/": "zdpuAuK3BHpS7NvMBivynypqciYCuy2UW77XYBPUYRnLjnw13"}
+		}
+		b, _ := json.Marshal(m)
+		return b
 	case "wrongaddr":
 		var m map[string]interface{}
 		_ = json.Unmarshal(real, &m)
